@@ -89,7 +89,8 @@ _c('C06', 'Proved for all link lengths, speeds, step lengths and positions, over
           'consuming exactly its whole-second travel time, or split at ONE point on the link into start->p / p->end; over a whole route never more than the step time is used, the odometer increment is the length '
           'of the driven links, something remains only when time is used up, and driven++remaining lists the route ids in order (induction over the fold); move sets position/route/odometer/event accordingly. '
           'For every link table: the driven part followed by the remaining part is a connected walk with the ends of the route (C06_traverse_keeps_walk); with time available a route whose first link has distinct ends is driven at least in part (C06_progress); nothing driven in a positive step means the vehicle already is where the route ends (C06_nothing_driven_means_arrived). '
-          'PARTIAL: the speed clause on a split link depends on the h3 oracle; arrival timing over journeys decided by correspondence + motion monitor (its one finding, a full vehicle stuck after arrival, is repaired: 6bab96c).',
+          'A vehicle whose route is exhausted when its update comes leaves the travelling activity in that update (C06_arrived_vehicle_leaves: default transition, new activity of another kind). '
+          'PARTIAL: the speed clause on a split link depends on the h3 oracle; that an arrived vehicle\'s update is not refused for ever is decided by correspondence + motion monitor (its one finding, a full vehicle stuck after arrival, is repaired: 6bab96c).',
    'Coq proof over translated traversal kernels (induction over the route fold) + step-model move lemma; correspondence; motion monitor')
 _c('C11', 'Proved: regenerated stop conditions are key<now; over ANY sorted file and strictly increasing step times the windowed reader releases in step j exactly the rows with t_(j-1)<=key<t_j, each once, none early '
           '(induction, no bound); expired-on-arrival rows are not added, admitted rows are added once with one event, no cancellation before departure+timeout; a price update changes only the named plug types of the named station. '
